@@ -1,13 +1,18 @@
 #!/bin/bash
-# tools/seedtest.sh <round-letter> <worktree-prefix> <NN ...>  -- collect an agent's seeded_out into seeded/Cnn-<letter>/ and run the property's
-# quick check against the agent's worktree (VERIF_REPO), leaving /repo alone
+# tools/seedtest.sh <round-letter> <worktree-prefix> <NN ...>  -- collect an agent's seeded_out into seeded/Cnn-<letter>/, apply its patch.diff to a
+# scratch worktree of /repo's HEAD under /tmp (never to /repo) and run the property's quick check against that worktree (VERIF_REPO)
 letter=$1; prefix=$2; shift 2
 cd "$(dirname "$(readlink -f "$0")")/.."
+scratch=/tmp/wt_seedtest
+if [ ! -d $scratch ]; then git -C /repo worktree add -q --detach $scratch HEAD || exit 3; fi
+git -C $scratch checkout -q --detach "$(git -C /repo rev-parse HEAD)"; git -C $scratch checkout -q -- .
 for i in "$@"; do
   d=$prefix$i/seeded_out
   if [ ! -f $d/patch.diff ]; then echo "C$i-$letter: no patch yet"; continue; fi
   mkdir -p seeded/C$i-$letter; cp $d/patch.diff $d/demo.py $d/meta.json seeded/C$i-$letter/
-  out=$(VERIF_REPO=$prefix$i ./check C$i --tier quick 2>&1); rc=$?
+  if ! git -C $scratch apply "$(readlink -f seeded/C$i-$letter/patch.diff)"; then echo "C$i-$letter: patch does not apply to HEAD"; continue; fi
+  out=$(VERIF_REPO=$scratch ./check C$i --tier quick 2>&1); rc=$?
+  git -C $scratch checkout -q -- .
   echo "C$i-$letter rc=$rc $(echo "$out" | grep -c VIOLATION) viol | $(echo "$out" | tail -1)"
   echo "$out" | grep VIOLATION | head -2 | cut -c1-220
 done
